@@ -5,6 +5,7 @@
 From Coq Require Import List Arith Bool.
 From Echo Require Import Mw.Gzip Mw.GzipProofs.
 Import ListNotations.
+From Echo Require Import PropLemmas.C15.
 
 (* for every handler program over {WriteHeader, Write chunk, Flush}, every MinLength, every content of
    the recycled buffer and whether or not the handler had set a Content-Length: a client undoing the
@@ -27,8 +28,7 @@ Print Assumptions C15_pool_clean.
 (* body-less responses stay empty (as decoded) *)
 Theorem C15_bodyless_empty : forall minlen pooled cl ops, payload ops = [] ->
   decode (fst (request minlen pooled cl ops)) = Some [].
-Proof. intros minlen pooled cl ops H. pose proof (roundtrip minlen pooled cl ops) as R.
-  destruct (request minlen pooled cl ops) as [w ns]. destruct R as [R _]. rewrite H in R. exact R. Qed.
+Proof. exact C15_bodyless_empty_l. Qed.
 Print Assumptions C15_bodyless_empty.
 
 (* non-vacuity: threshold crossed by the second chunk, flush before any body, header only *)
@@ -38,3 +38,14 @@ Example C15_example :
   w_ce (fst (request 5 [] false [Flush])) = true /\ w_ce (fst (request 5 [] false [WriteHeader 204])) = false /\
   w_ce (fst (request 5 [] false [Write [1]])) = false.
 Proof. vm_compute. repeat split. Qed.
+
+(* Decompress: bodies that are not labelled gzip reach the handler untouched, whatever they contain (also bytes that
+   happen to look like a gzip stream); a labelled body is what the gzip reader makes of it *)
+Theorem C15_decompress_untouched : forall sent gunzip, decompress false sent gunzip = Some sent.
+Proof. exact decompress_untouched. Qed.
+Print Assumptions C15_decompress_untouched.
+
+Theorem C15_decompress_gzip : forall sent gunzip, sent <> [] -> decompress true sent gunzip = gunzip sent.
+Proof. exact decompress_gzip. Qed.
+Print Assumptions C15_decompress_gzip.
+
